@@ -38,16 +38,16 @@ def run(ctx):
     r = ctx.rng.fork("c04")
     q = ctx.quick
     inputs = []   # (origin, text)
-    corp = textmut.corpus() + textmut.generated(ctx.seed * 911 + 4, 150 if q else 1500)
+    corp = textmut.corpus() + textmut.generated(ctx.seed * 911 + 4, 150 if q else 600)
     for name, text in corp:
-        lim = (40 if q else 1200) if len(text) <= 2000 else (12 if q else 300)
+        lim = (40 if q else 500) if len(text) <= 2000 else (12 if q else 150)
         for p in textmut.prefixes(text, r.fork("p", name), lim):
             inputs.append(("prefix:" + name, p))
-        for i in range(8 if q else 160):
+        for i in range(8 if q else 80):
             inputs.append(("tokmut:" + name, textmut.mutate_tokens(text, r.fork("t", name, i))))
-        for i in range(8 if q else 160):
+        for i in range(8 if q else 80):
             inputs.append(("chrmut:" + name, textmut.mutate_chars(text, r.fork("c", name, i))))
-    for i in range(2500 if q else 60000):
+    for i in range(2500 if q else 30000):
         inputs.append(("soup", textmut.soup(r.fork("s", i))))
     for i in range(150 if q else 2000):
         inputs.append(("nested", textmut.nested(r.fork("n", i))))
@@ -64,7 +64,7 @@ def run(ctx):
                 nests.append((">".join(chain) + ":" + pl[0], t[len(c03.DECLS):] if not t.count("Pt(") else t))
     for name, t in nests:
         inputs.append(("nest:" + name, t))
-    for name, t in r.sample(nests, min(len(nests), 60 if q else 1200)):
+    for name, t in r.sample(nests, min(len(nests), 60 if q else 400)):
         for p in textmut.prefixes(t, r.fork("np", name), 10 if q else 60):
             inputs.append(("nest-prefix:" + name, p))
         for i in range(2 if q else 20):
